@@ -266,6 +266,13 @@ FIXED_PAIRS = [
     # oneof with appended alternatives
     ('package p.o\nstruct R root {\n V O\n}\noneof O {\n I int64\n S string\n}\n',
      'package p.o\nstruct R root {\n V O\n}\noneof O {\n I int64\n S string\n F float64\n M MM\n}\nmultimap MM {\n key string\n value int64\n}\n'),
+    # an appended field that reaches, earlier in depth-first order, a struct A reaches later: the lists of
+    # field counts have the same length but a different order ([2,1,3,1] vs [2,2,1,3])
+    ('package p.e\nstruct R root {\n X S1\n Y S2\n}\nstruct S1 {\n A uint64\n}\nstruct S2 {\n B uint64\n C string\n W S3\n}\nstruct S3 {\n D uint64\n}\n',
+     'package p.e\nstruct R root {\n X S1\n Y S2\n}\nstruct S1 {\n A uint64\n V S3\n}\nstruct S2 {\n B uint64\n C string\n W S3\n}\nstruct S3 {\n D uint64\n}\n'),
+    # the same through an array and a oneof alternative
+    ('package p.f\nstruct R root {\n X S1\n Y O\n}\nstruct S1 {\n A uint64\n}\noneof O {\n I int64\n T S3\n U string\n}\nstruct S3 {\n D uint64\n E string\n}\n',
+     'package p.f\nstruct R root {\n X S1\n Y O\n}\nstruct S1 {\n A uint64\n V []S3\n}\noneof O {\n I int64\n T S3\n U string\n}\nstruct S3 {\n D uint64\n E string\n}\n'),
 ]
 
 
